@@ -1,18 +1,26 @@
-(* TV.Fs.View — what the implementation's view functions compute when no rename
-   is pending (the known classes RenameFile / RenameDir are the histories with a
-   pending rename): per-path folds over the pending log, and how push / sync_file
-   / sync_dir act on them. *)
+(* TV.Fs.View — what the implementation's view functions compute: per-path folds
+   over the pending log, and how push / sync_file / sync_dir act on them.  Pending
+   renames of regular files are admitted in the well-formed shape [RWf] that the
+   complement of the known classes RenameFile / RenameDir guarantees (distinct
+   names, the source created before and untouched after, the target at most
+   unlinked after, no data operation pending on either name). *)
 From TV.Lib Require Import Base.
 From TV.Fs Require Import FsImpl FsSpec Facts.
 Open Scope N_scope.
 
 Definition not_rename (o : pop) : bool := match o with PRename _ _ => false | _ => true end.
 Definition norename (s : fs) : Prop := forallb not_rename (pending s) = true.
+(* the operation is not a rename that names p *)
+Definition ren_off (p : path) (o : pop) : bool :=
+  match o with PRename f t => negb (path_eqb f p) && negb (path_eqb t p) | _ => true end.
+Lemma not_rename_off p o : not_rename o = true -> ren_off p o = true.
+Proof. destruct o; try reflexivity; discriminate. Qed.
 
 Definition fx_step (p : path) (ex : bool) (o : pop) : bool :=
   match o with
   | CreateFile q => if path_eqb q p then true else ex
   | PRemoveFile q => if path_eqb q p then false else ex
+  | PRename f t => if path_eqb f p then false else if path_eqb t p then true else ex
   | _ => ex
   end.
 Definition dx_step (p : path) (ex : bool) (o : pop) : bool :=
@@ -30,7 +38,7 @@ Definition cstep (p : path) (c : bytes) (o : pop) : bytes :=
 Definition cont (x : option bytes) : bytes := match x with Some c => c | None => [] end.
 Definition some {A} (x : option A) : bool := match x with Some _ => true | None => false end.
 
-(* the contents the implementation shows for path p *)
+(* the contents the implementation holds under the (persisted-side) key p *)
 Definition fcontent (s : fs) (p : path) : bytes :=
   fold_left (cstep p) (pending s) (cont (fget (pfiles s) p)).
 
@@ -66,38 +74,204 @@ Proof.
   - intros b o Ho. apply filter_In in Ho as [Ho Hg]. apply H; auto.
 Qed.
 
-(* ---- views without a pending rename ----------------------------------------------- *)
+Lemma forallb_filter {A} (f g : A -> bool) l : forallb f l = true -> forallb f (filter g l) = true.
+Proof.
+  rewrite !forallb_forall. intros H x Hx. apply filter_In in Hx as [Hx _]. auto.
+Qed.
+
+(* ---- the names of the pending renames -------------------------------------------- *)
+Fixpoint rnames (l : list pop) : list path :=
+  match l with
+  | [] => []
+  | PRename f t :: l' => f :: t :: rnames l'
+  | _ :: l' => rnames l'
+  end.
+
+Lemma rnames_in : forall l f t, In (PRename f t) l -> In f (rnames l) /\ In t (rnames l).
+Proof.
+  induction l as [|o l IH]; intros f t H; [contradiction|].
+  destruct H as [H|H].
+  - subst o. cbn. auto.
+  - destruct (IH f t H) as [A B]. destruct o; cbn; auto.
+Qed.
+
+Lemma in_rnames : forall l p, In p (rnames l) -> exists f t, In (PRename f t) l /\ (p = f \/ p = t).
+Proof.
+  induction l as [|o l IH]; intros p H; [contradiction|].
+  destruct o; cbn in H; try (destruct (IH p H) as (f & t & A & B); exists f, t; split; [right; exact A|exact B]).
+  destruct H as [H|[H|H]].
+  - exists from, to. split; [left; reflexivity|left; auto].
+  - exists from, to. split; [left; reflexivity|right; auto].
+  - destruct (IH p H) as (f & t & A & B). exists f, t. split; [right; exact A|exact B].
+Qed.
+
+Lemma rnames_app : forall l1 l2, rnames (l1 ++ l2) = rnames l1 ++ rnames l2.
+Proof.
+  induction l1 as [|o l1 IH]; intro l2; [reflexivity|].
+  destruct o; cbn; rewrite ?IH; reflexivity.
+Qed.
+
+Lemma rnames_filter_in (h : pop -> bool) : forall l p, In p (rnames (filter h l)) -> In p (rnames l).
+Proof.
+  intros l p H. apply in_rnames in H as (f & t & A & B). apply filter_In in A as [A _].
+  destruct (rnames_in l f t A). destruct B; subst; assumption.
+Qed.
+
+Lemma NoDup_rnames_filter (h : pop -> bool) : forall l, NoDup (rnames l) -> NoDup (rnames (filter h l)).
+Proof.
+  induction l as [|o l IH]; intro H; [constructor|].
+  destruct o; cbn in *; try (destruct (h _); cbn; apply IH; exact H).
+  inversion H as [|? ? H1 H2]; subst. inversion H2 as [|? ? H3 H4]; subst.
+  destruct (h (PRename from to)); cbn; [|apply IH; exact H4].
+  constructor.
+  - intros [Hx|Hx]; [apply H1; left; exact Hx|]. apply H1. right. eapply rnames_filter_in. exact Hx.
+  - constructor; [|apply IH; exact H4]. intro Hx. apply H3. eapply rnames_filter_in. exact Hx.
+Qed.
+
+Lemma norename_rnames l : forallb not_rename l = true -> rnames l = [].
+Proof.
+  induction l as [|o l IH]; intro H; [reflexivity|]. cbn in H. apply andb_true_iff in H as [Ho Hl].
+  destruct o; cbn; try (apply IH; exact Hl). discriminate.
+Qed.
+
 Lemma norename_in s : norename s -> forall o, In o (pending s) -> not_rename o = true.
 Proof. unfold norename. intros H o Ho. rewrite forallb_forall in H. auto. Qed.
 
-Lemma resolve_nr s p : norename s -> resolve s p = p.
+Lemma path_dec (p q : path) : {p = q} + {p <> q}.
+Proof. apply list_eq_dec. apply N.eq_dec. Qed.
+
+(* p is the new name of some rename in l, or of none *)
+Lemma tgt_dec : forall l p, (exists f, In (PRename f p) l) \/ (forall f, ~ In (PRename f p) l).
 Proof.
-  intro H. unfold resolve. apply fold_left_id_in. intros a o Ho.
-  apply in_rev in Ho. apply (norename_in s H) in Ho. destruct o; try reflexivity; discriminate.
+  induction l as [|o l IH]; intro p; [right; intros f []|].
+  destruct (IH p) as [[f H]|H]; [left; exists f; right; exact H|].
+  destruct o; try (right; intros f [Hf|Hf]; [discriminate|eapply H; exact Hf]).
+  destruct (path_dec to p) as [->|Hn].
+  - left. exists from. left. reflexivity.
+  - right. intros f [Hf|Hf]; [inversion Hf; congruence|eapply H; exact Hf].
+Qed.
+Lemma src_dec : forall l p, (exists t, In (PRename p t) l) \/ (forall t, ~ In (PRename p t) l).
+Proof.
+  induction l as [|o l IH]; intro p; [right; intros f []|].
+  destruct (IH p) as [[f H]|H]; [left; exists f; right; exact H|].
+  destruct o; try (right; intros f [Hf|Hf]; [discriminate|eapply H; exact Hf]).
+  destruct (path_dec from p) as [->|Hn].
+  - left. exists to. left. reflexivity.
+  - right. intros f [Hf|Hf]; [inversion Hf; congruence|eapply H; exact Hf].
 Qed.
 
-Lemma renamed_to_nr s q cp : norename s -> renamed_to s q cp = path_eqb q cp.
+(* ---- resolve: a new name resolves to the old one ---------------------------------- *)
+Definition rstep (cur : path) (o : pop) : path :=
+  match o with PRename f t => if path_eqb t cur then f else cur | _ => cur end.
+Definition rres (l : list pop) (p : path) : path := fold_right (fun o cur => rstep cur o) p l.
+
+Lemma resolve_fold s p : resolve s p = rres (pending s) p.
 Proof.
-  intro H. unfold renamed_to. rewrite fold_left_id_in; [reflexivity|].
-  intros a o Ho. apply (norename_in s H) in Ho. destruct o; try reflexivity; discriminate.
+  unfold resolve, rres.
+  pose proof (fold_left_rev_right (fun o cur => rstep cur o) (rev (pending s)) p) as H.
+  rewrite rev_involutive in H. symmetry. exact H.
 Qed.
 
-Lemma applies_nr s cp q : norename s -> applies s cp q = path_eqb q cp.
-Proof. intro H. unfold applies. rewrite renamed_to_nr by exact H. apply orb_diag. Qed.
+Lemma rres_other : forall l p, (forall f, ~ In (PRename f p) l) -> rres l p = p.
+Proof.
+  induction l as [|o l IH]; intros p H; [reflexivity|].
+  cbn [rres fold_right]. fold (rres l p). rewrite IH by (intros f Hf; apply (H f); right; exact Hf).
+  destruct o; try reflexivity. cbn [rstep].
+  destruct (path_eqb to p) eqn:E; [|reflexivity]. apply path_eqb_eq in E. subst to.
+  exfalso. apply (H from). left. reflexivity.
+Qed.
 
-Lemma file_exists_nr s p : norename s ->
+Lemma rres_tgt : forall l f t, NoDup (rnames l) -> In (PRename f t) l -> rres l t = f.
+Proof.
+  induction l as [|o l IH]; intros f t Hnd Hin; [contradiction|].
+  cbn [rres fold_right]. fold (rres l t).
+  destruct Hin as [Hin|Hin].
+  - subst o. cbn in Hnd. inversion Hnd as [|? ? H1 H2]; subst. inversion H2 as [|? ? H3 H4]; subst.
+    rewrite rres_other.
+    + cbn [rstep]. rewrite path_eqb_refl. reflexivity.
+    + intros f' Hf'. apply H3. apply (rnames_in l f' t Hf').
+  - assert (Hnd' : NoDup (rnames l)).
+    { destruct o; cbn in Hnd; try exact Hnd. inversion Hnd as [|? ? _ H2]; subst. inversion H2; assumption. }
+    rewrite (IH f t Hnd' Hin). destruct o; try reflexivity. cbn [rstep].
+    destruct (path_eqb to f) eqn:E; [|reflexivity]. apply path_eqb_eq in E. subst to. exfalso.
+    cbn in Hnd. inversion Hnd as [|? ? _ H2]; subst. inversion H2 as [|? ? H3 _]; subst.
+    apply H3. apply (rnames_in l f t Hin).
+Qed.
+
+Lemma resolve_other s p : (forall f, ~ In (PRename f p) (pending s)) -> resolve s p = p.
+Proof. intro H. rewrite resolve_fold. apply rres_other. exact H. Qed.
+Lemma resolve_tgt s f t : NoDup (rnames (pending s)) -> In (PRename f t) (pending s) -> resolve s t = f.
+Proof. intros H1 H2. rewrite resolve_fold. apply rres_tgt; assumption. Qed.
+
+(* what a path resolves to is never the new name of a pending rename *)
+Lemma resolve_not_tgt s p : NoDup (rnames (pending s)) ->
+  forall f, ~ In (PRename f (resolve s p)) (pending s).
+Proof.
+  intros Hnd f' Hf'. destruct (tgt_dec (pending s) p) as [[f Hf]|Hn].
+  - rewrite (resolve_tgt s f p Hnd Hf) in Hf'.
+    (* f is a source and a target *)
+    clear - Hnd Hf Hf'. revert Hnd Hf Hf'. generalize (pending s) as l.
+    induction l as [|o l IH]; intros Hnd Hf Hf'; [contradiction|].
+    assert (Hnd' : NoDup (rnames l)).
+    { destruct o; cbn in Hnd; try exact Hnd. inversion Hnd as [|? ? _ H2]; subst. inversion H2; assumption. }
+    destruct Hf as [Hf|Hf]; destruct Hf' as [Hf'|Hf'].
+    + subst o. inversion Hf'; subst. cbn in Hnd. inversion Hnd as [|? ? H1 _]; subst. apply H1. left. reflexivity.
+    + subst o. cbn in Hnd. inversion Hnd as [|? ? H1 _]; subst. apply H1. right. apply (rnames_in l f' f Hf').
+    + subst o. cbn in Hnd. inversion Hnd as [|? ? _ H2]; subst. inversion H2 as [|? ? H3 _]; subst.
+      apply H3. apply (rnames_in l f p Hf).
+    + apply IH; assumption.
+  - rewrite (resolve_other s p Hn) in Hf'. eapply Hn. exact Hf'.
+Qed.
+
+(* ---- renamed_to ----------------------------------------------------------------------- *)
+Definition fstep (cur : path) (o : pop) : path :=
+  match o with PRename f t => if path_eqb f cur then t else cur | _ => cur end.
+
+Lemma renamed_to_fold s q cp : renamed_to s q cp = path_eqb (fold_left fstep (pending s) q) cp.
+Proof. reflexivity. Qed.
+
+Lemma fwd_tgt : forall l q, fold_left fstep l q <> q -> exists f, In (PRename f (fold_left fstep l q)) l.
+Proof.
+  induction l as [|o l IH]; intros q H; [exfalso; apply H; reflexivity|].
+  cbn [fold_left] in *.
+  destruct (path_dec (fstep q o) q) as [E|E].
+  - rewrite E in *. destruct (IH q H) as [f Hf]. exists f. right. exact Hf.
+  - destruct o; cbn [fstep] in *; try congruence.
+    destruct (path_eqb from q) eqn:E1; [|congruence].
+    destruct (path_dec (fold_left fstep l to) to) as [E2|E2].
+    + rewrite E2. exists from. left. reflexivity.
+    + destruct (IH to E2) as [f Hf]. exists f. right. exact Hf.
+Qed.
+
+Lemma applies_nt s cp q : (forall f, ~ In (PRename f cp) (pending s)) -> applies s cp q = path_eqb q cp.
+Proof.
+  intro H. unfold applies. rewrite renamed_to_fold.
+  destruct (path_eqb q cp) eqn:E; [reflexivity|]. cbn [orb].
+  destruct (path_eqb (fold_left fstep (pending s) q) cp) eqn:E2; [|reflexivity].
+  apply path_eqb_eq in E2. exfalso.
+  destruct (path_dec (fold_left fstep (pending s) q) q) as [E3|E3].
+  - rewrite E3 in E2. subst cp. rewrite path_eqb_refl in E. discriminate.
+  - destruct (fwd_tgt _ _ E3) as [f Hf]. rewrite E2 in Hf. eapply H. exact Hf.
+Qed.
+
+(* ---- the views as folds ---------------------------------------------------------------- *)
+Lemma file_exists_fold s p :
   file_exists s p = fold_left (fx_step p) (pending s) (has_file (pfiles s) p).
-Proof.
-  intro H. unfold file_exists. apply fold_left_ext_in. intros a o Ho.
-  apply (norename_in s H) in Ho. destruct o; try reflexivity; discriminate.
-Qed.
+Proof. reflexivity. Qed.
 
-Lemma dir_exists_nr s p : norename s ->
+(* no pending rename has a persisted directory as its source *)
+Definition rdirs_off (s : fs) : Prop :=
+  forall f t, In (PRename f t) (pending s) -> mem_path f (pdirs s) = false.
+
+Lemma dir_exists_fold s p : rdirs_off s ->
   dir_exists s p = fold_left (dx_step p) (pending s) (mem_path p (pdirs s)).
 Proof.
   intro H. unfold dir_exists. apply fold_left_ext_in. intros a o Ho.
-  apply (norename_in s H) in Ho. destruct o; try reflexivity; discriminate.
+  destruct o; try reflexivity. cbn [dx_step]. rewrite (H _ _ Ho), !andb_false_r. reflexivity.
 Qed.
+
+Lemma norename_rdirs_off s : norename s -> rdirs_off s.
+Proof. intros H f t Hin. apply (norename_in s H) in Hin. discriminate. Qed.
 
 Lemma length_cstep_fold p : forall l c,
   fold_left (fun len o =>
@@ -113,14 +287,15 @@ Proof.
   - destruct (path_eqb p0 p); [|apply IH]. rewrite <- (length_resize c len) at 1. apply IH.
 Qed.
 
-Lemma file_len_nr s p : norename s -> file_len s p = length (fcontent s p).
+Lemma file_len_res s p : NoDup (rnames (pending s)) ->
+  file_len s p = length (fcontent s (resolve s p)).
 Proof.
-  intro H. unfold file_len, fcontent. rewrite resolve_nr by exact H.
+  intro H. unfold file_len, fcontent. set (cp := resolve s p).
   rewrite <- length_cstep_fold.
-  replace (match fget (pfiles s) p with Some c => length c | None => 0%nat end)
-    with (length (cont (fget (pfiles s) p))) by (destruct (fget (pfiles s) p); reflexivity).
+  replace (match fget (pfiles s) cp with Some c => length c | None => 0%nat end)
+    with (length (cont (fget (pfiles s) cp))) by (destruct (fget (pfiles s) cp); reflexivity).
   apply fold_left_ext_in. intros a o Ho.
-  destruct o; try reflexivity; rewrite applies_nr by exact H; reflexivity.
+  destruct o; try reflexivity; rewrite applies_nt by (apply resolve_not_tgt; exact H); reflexivity.
 Qed.
 
 Lemma buf_fold p off n : forall l c,
@@ -137,25 +312,46 @@ Proof.
   - destruct (path_eqb p0 p); [|apply IH]. rewrite zero_from_win. apply IH.
 Qed.
 
-Lemma read_file_nr s p n off : norename s ->
-  read_file s p n off = firstn n (skipn off (fcontent s p)).
+Lemma read_file_res s p n off : NoDup (rnames (pending s)) ->
+  read_file s p n off = firstn n (skipn off (fcontent s (resolve s p))).
 Proof.
   intro H. unfold read_file.
   destruct (Nat.eqb_spec n 0) as [->|Hn]; [reflexivity|].
-  rewrite file_len_nr by exact H.
-  destruct (Nat.leb_spec (length (fcontent s p)) off) as [Hle|Hlt].
+  rewrite file_len_res by exact H. set (cp := resolve s p).
+  destruct (Nat.leb_spec (length (fcontent s cp)) off) as [Hle|Hlt].
   - rewrite skipn_all2 by exact Hle. destruct n; reflexivity.
-  - rewrite resolve_nr by exact H.
-    set (tr := Nat.min n (length (fcontent s p) - off)).
-    replace (match fget (pfiles s) p with
+  - set (tr := Nat.min n (length (fcontent s cp) - off)).
+    replace (match fget (pfiles s) cp with
              | Some c => firstn tr (skipn off c ++ zeros tr)
-             | None => zeros tr end) with (win (cont (fget (pfiles s) p)) off tr)
-      by (destruct (fget (pfiles s) p); [reflexivity|apply win_nil]).
-    rewrite <- (win_slice (fcontent s p) off n). fold tr.
+             | None => zeros tr end) with (win (cont (fget (pfiles s) cp)) off tr)
+      by (destruct (fget (pfiles s) cp); [reflexivity|apply win_nil]).
+    rewrite <- (win_slice (fcontent s cp) off n). fold tr.
     unfold fcontent. rewrite <- buf_fold.
     apply fold_left_ext_in. intros a o Ho.
-    destruct o; try reflexivity; rewrite applies_nr by exact H; reflexivity.
+    destruct o; try reflexivity; rewrite applies_nt by (apply resolve_not_tgt; exact H); reflexivity.
 Qed.
+
+(* ---- the rename-free special case ---------------------------------------------------------- *)
+Lemma norename_nodup s : norename s -> NoDup (rnames (pending s)).
+Proof. intro H. rewrite (norename_rnames _ H). constructor. Qed.
+
+Lemma resolve_nr s p : norename s -> resolve s p = p.
+Proof. intro H. apply resolve_other. intros f Hf. apply (norename_in s H) in Hf. discriminate. Qed.
+
+Lemma file_exists_nr s p : norename s ->
+  file_exists s p = fold_left (fx_step p) (pending s) (has_file (pfiles s) p).
+Proof. intros _. reflexivity. Qed.
+
+Lemma dir_exists_nr s p : norename s ->
+  dir_exists s p = fold_left (dx_step p) (pending s) (mem_path p (pdirs s)).
+Proof. intro H. apply dir_exists_fold. apply norename_rdirs_off. exact H. Qed.
+
+Lemma file_len_nr s p : norename s -> file_len s p = length (fcontent s p).
+Proof. intro H. rewrite file_len_res by (apply norename_nodup; exact H). rewrite resolve_nr by exact H. reflexivity. Qed.
+
+Lemma read_file_nr s p n off : norename s ->
+  read_file s p n off = firstn n (skipn off (fcontent s p)).
+Proof. intro H. rewrite read_file_res by (apply norename_nodup; exact H). rewrite resolve_nr by exact H. reflexivity. Qed.
 
 (* ---- push ----------------------------------------------------------------------------- *)
 Lemma pending_push s o : pending (push s o) = pending s ++ [o].
@@ -166,18 +362,17 @@ Proof.
   unfold norename. intros H Ho. rewrite pending_push, forallb_app, H. cbn. rewrite Ho. reflexivity.
 Qed.
 
-Lemma file_exists_push s o p : not_rename o = true ->
-  file_exists (push s o) p = fx_step p (file_exists s p) o.
+Lemma file_exists_push s o p : file_exists (push s o) p = fx_step p (file_exists s p) o.
 Proof.
-  intro H. unfold file_exists. rewrite pending_push, fold_left_app. cbn [fold_left pfiles push set_pending].
-  destruct o; try reflexivity; discriminate.
+  unfold file_exists. rewrite pending_push, fold_left_app. reflexivity.
 Qed.
 
-Lemma dir_exists_push s o p : not_rename o = true ->
+Lemma dir_exists_push s o p :
+  match o with PRename f _ => mem_path f (pdirs s) = false | _ => True end ->
   dir_exists (push s o) p = dx_step p (dir_exists s p) o.
 Proof.
   intro H. unfold dir_exists. rewrite pending_push, fold_left_app. cbn [fold_left pdirs push set_pending].
-  destruct o; try reflexivity; discriminate.
+  destruct o; try reflexivity. cbn [dx_step]. rewrite H, !andb_false_r. reflexivity.
 Qed.
 
 Lemma fcontent_push s o p : fcontent (push s o) p = cstep p (fcontent s p) o.
@@ -193,10 +388,14 @@ Definition aop_f (p : path) (st : option bytes) (o : pop) : option bytes :=
   | _ => st
   end.
 
-Lemma fget_apply_op s o p : not_rename o = true ->
+(* the rename moves a persisted regular file, or nothing at all *)
+Definition ren_files_only (s : fs) (o : pop) : Prop :=
+  match o with PRename f _ => mem_path f (pdirs s) = false | _ => True end.
+
+Lemma fget_apply_op s o p : ren_off p o = true -> ren_files_only s o ->
   fget (pfiles (apply_op s o)) p = aop_f p (fget (pfiles s) p) o.
 Proof.
-  intro H. destruct o; cbn [apply_op aop_f]; try discriminate; try reflexivity.
+  intros H Hd. destruct o; cbn [apply_op aop_f]; try reflexivity.
   - unfold has_file. destruct (fget (pfiles s) p0) eqn:E0.
     + destruct (path_eqb p0 p) eqn:E; [|reflexivity]. apply path_eqb_eq in E; subst.
       rewrite E0. reflexivity.
@@ -214,18 +413,24 @@ Proof.
       apply path_eqb_eq in E; subst. rewrite E0. reflexivity.
     + destruct (path_eqb p0 p) eqn:E; [|reflexivity].
       apply path_eqb_eq in E; subst. rewrite E0. reflexivity.
+  - cbn [ren_off] in H. apply andb_true_iff in H as [H1 H2].
+    apply negb_true_iff in H1, H2. cbn [ren_files_only] in Hd.
+    destruct (fget (pfiles s) from) eqn:E0; cbn [pfiles].
+    + rewrite fget_fset, H2, fget_fdel, H1. reflexivity.
+    + rewrite Hd. reflexivity.
   - cbn [pfiles]. rewrite fget_fdel. reflexivity.
 Qed.
 
-Lemma mem_pdirs_apply_op s o p : not_rename o = true ->
+Lemma mem_pdirs_apply_op s o p : ren_files_only s o ->
   mem_path p (pdirs (apply_op s o)) = dx_step p (mem_path p (pdirs s)) o.
 Proof.
-  intro H. destruct o; cbn [apply_op dx_step]; try discriminate; try reflexivity.
+  intro H. destruct o; cbn [apply_op dx_step]; try reflexivity.
   - destruct (has_file (pfiles s) p0); reflexivity.
   - cbn [pdirs]. rewrite mem_padd. rewrite (path_eqb_sym p p0).
     destruct (path_eqb p0 p); [apply orb_true_r|apply orb_false_r].
   - destruct (fget (pfiles s) p0); reflexivity.
   - destruct (fget (pfiles s) p0); reflexivity.
+  - cbn [ren_files_only] in H. destruct (fget (pfiles s) from); [reflexivity|]. rewrite H. reflexivity.
   - cbn [pdirs]. rewrite mem_pdel. rewrite (path_eqb_sym p p0).
     destruct (path_eqb p0 p); cbn; [apply andb_false_r|apply andb_true_r].
 Qed.
@@ -240,10 +445,16 @@ Proof.
   - destruct (fget (pfiles s) from); auto. destruct (mem_path from (pdirs s)); auto.
 Qed.
 
-Lemma some_aop_f p st o : some (aop_f p st o) = fx_step p (some st) o.
+Lemma some_aop_f p st o : ren_off p o = true -> some (aop_f p st o) = fx_step p (some st) o.
 Proof.
-  destruct o; cbn; try reflexivity; destruct (path_eqb _ p); try reflexivity; destruct st; reflexivity.
+  intro H. destruct o; cbn in *; try reflexivity; try (destruct (path_eqb _ p); try reflexivity; destruct st; reflexivity).
+  apply andb_true_iff in H as [H1 H2]. apply negb_true_iff in H1, H2. rewrite H1, H2. reflexivity.
 Qed.
+
+(* no rename of the list has a persisted directory as its source, now or once the
+   list is being applied *)
+Definition rens_files_only (s : fs) (l : list pop) : Prop :=
+  forall f t, In (PRename f t) l -> mem_path f (pdirs s) = false /\ ~ In (CreateDir f) l.
 
 (* fold of apply_op (possibly interleaved with synced bookkeeping) on the tables *)
 Section ApplyFold.
@@ -252,22 +463,69 @@ Section ApplyFold.
   Hypothesis mark_dirs : forall s o, pdirs (mark s o) = pdirs s.
   Hypothesis mark_pending : forall s o, pending (mark s o) = pending s.
 
-  Lemma fold_apply_files p : forall l s, forallb not_rename l = true ->
+  Lemma rens_files_only_tail s o l : rens_files_only s (o :: l) ->
+    rens_files_only (apply_op (mark s o) o) l.
+  Proof.
+    intros H f t Hin. destruct (H f t (or_intror Hin)) as [A B]. split.
+    - rewrite mem_pdirs_apply_op.
+      + rewrite mark_dirs, A. destruct o; cbn [dx_step]; try reflexivity.
+        * destruct (path_eqb p f) eqn:E; [|reflexivity]. apply path_eqb_eq in E. subst p.
+          exfalso. apply B. left. reflexivity.
+        * destruct (path_eqb p f); reflexivity.
+      + destruct o; cbn; auto. rewrite mark_dirs. apply (H from to). left. reflexivity.
+    - intro Hc. apply B. right. exact Hc.
+  Qed.
+
+  Lemma fold_apply_files p : forall l s, forallb (ren_off p) l = true -> rens_files_only s l ->
     fget (pfiles (fold_left (fun st o => apply_op (mark st o) o) l s)) p =
     fold_left (aop_f p) l (fget (pfiles s) p).
   Proof.
-    induction l as [|o l IH]; intros s H; cbn [fold_left]; [reflexivity|].
+    induction l as [|o l IH]; intros s H Hd; cbn [fold_left]; [reflexivity|].
     cbn in H. apply andb_true_iff in H as [Ho Hl].
-    rewrite IH by exact Hl. f_equal. rewrite fget_apply_op by exact Ho. rewrite mark_files. reflexivity.
+    rewrite IH by (try exact Hl; apply rens_files_only_tail; exact Hd). f_equal.
+    rewrite fget_apply_op; [rewrite mark_files; reflexivity|exact Ho|].
+    destruct o; cbn; auto. rewrite mark_dirs. apply (Hd from to). left. reflexivity.
   Qed.
 
-  Lemma fold_apply_dirs p : forall l s, forallb not_rename l = true ->
+  Lemma fold_apply_dirs p : forall l s, rens_files_only s l ->
     mem_path p (pdirs (fold_left (fun st o => apply_op (mark st o) o) l s)) =
     fold_left (dx_step p) l (mem_path p (pdirs s)).
   Proof.
-    induction l as [|o l IH]; intros s H; cbn [fold_left]; [reflexivity|].
-    cbn in H. apply andb_true_iff in H as [Ho Hl].
-    rewrite IH by exact Hl. f_equal. rewrite mem_pdirs_apply_op by exact Ho. rewrite mark_dirs. reflexivity.
+    induction l as [|o l IH]; intros s Hd; cbn [fold_left]; [reflexivity|].
+    rewrite IH by (apply rens_files_only_tail; exact Hd). f_equal.
+    rewrite mem_pdirs_apply_op; [rewrite mark_dirs; reflexivity|].
+    destruct o; cbn; auto. rewrite mark_dirs. apply (Hd from to). left. reflexivity.
+  Qed.
+
+  Lemma rens_files_only_app s : forall A B, rens_files_only s (A ++ B) ->
+    rens_files_only s A /\ rens_files_only (fold_left (fun st o => apply_op (mark st o) o) A s) B.
+  Proof.
+    intros A. revert s. induction A as [|o A IH]; intros s B H.
+    - split; [intros f t []|exact H].
+    - cbn [app fold_left] in *. destruct (IH _ B (rens_files_only_tail s o _ H)) as [X Y]. split; [|exact Y].
+      intros f t Hin. destruct (H f t) as [P Q].
+      { destruct Hin as [Hin|Hin]; [left; exact Hin|right; apply in_or_app; left; exact Hin]. }
+      split; [exact P|]. intro Hc. apply Q. destruct Hc as [Hc|Hc]; [left; exact Hc|right; apply in_or_app; left; exact Hc].
+  Qed.
+
+  (* a flushed rename whose source is persisted when its turn comes *)
+  Lemma fold_apply_rename f t c A B s : f <> t ->
+    forallb (ren_off f) A = true -> forallb (ren_off f) B = true -> forallb (ren_off t) B = true ->
+    rens_files_only s (A ++ PRename f t :: B) ->
+    fold_left (aop_f f) A (fget (pfiles s) f) = Some c ->
+    let s' := fold_left (fun st o => apply_op (mark st o) o) (A ++ PRename f t :: B) s in
+    fget (pfiles s') f = fold_left (aop_f f) B None /\ fget (pfiles s') t = fold_left (aop_f t) B (Some c).
+  Proof.
+    intros Hne HA HBf HBt Hd Hc. cbv zeta. rewrite fold_left_app. cbn [fold_left].
+    destruct (rens_files_only_app s A _ Hd) as [HdA HdB].
+    set (s1 := fold_left (fun st o => apply_op (mark st o) o) A s) in *.
+    assert (H1 : fget (pfiles s1) f = Some c) by (unfold s1; rewrite fold_apply_files by assumption; exact Hc).
+    pose proof (rens_files_only_tail s1 _ _ HdB) as Hd2.
+    set (s2 := apply_op (mark s1 (PRename f t)) (PRename f t)) in *.
+    assert (H2 : pfiles s2 = fset (fdel (pfiles s1) f) t c).
+    { unfold s2. cbn [apply_op]. rewrite mark_files, H1. reflexivity. }
+    rewrite !fold_apply_files by assumption. rewrite H2, !fget_fset, fget_fdel, !path_eqb_refl.
+    destruct (path_eqb t f) eqn:E; [apply path_eqb_eq in E; congruence|]. split; reflexivity.
   Qed.
 
   Lemma fold_apply_pending : forall l s,
@@ -278,21 +536,30 @@ Section ApplyFold.
   Qed.
 End ApplyFold.
 
+Lemma rens_files_only_nr s l : forallb not_rename l = true -> rens_files_only s l.
+Proof. intros H f t Hin. rewrite forallb_forall in H. apply H in Hin. discriminate. Qed.
+Lemma forallb_ren_off_nr p l : forallb not_rename l = true -> forallb (ren_off p) l = true.
+Proof. rewrite !forallb_forall. intros H o Ho. apply not_rename_off. auto. Qed.
+
 (* ---- helper facts on the folds ---------------------------------------------------------- *)
 Lemma fx_fold_true p : forall l b, fold_left (fx_step p) l b = true -> fold_left (fx_step p) l true = true.
 Proof.
   induction l as [|o l IH]; intros b H; cbn in *; [reflexivity|].
   destruct o; cbn in *; try (eapply IH; exact H).
   - destruct (path_eqb p0 p); [exact H|eapply IH; exact H].
+  - destruct (path_eqb from p); [exact H|]. destruct (path_eqb to p); [exact H|eapply IH; exact H].
   - destruct (path_eqb p0 p); [exact H|eapply IH; exact H].
 Qed.
 
-Lemma fx_fold_src p : forall l b, fold_left (fx_step p) l b = true -> b = true \/ In (CreateFile p) l.
+Lemma fx_fold_src p : forall l b, fold_left (fx_step p) l b = true ->
+  b = true \/ In (CreateFile p) l \/ exists f, In (PRename f p) l.
 Proof.
   induction l as [|o l IH]; intros b H; cbn in *; [left; exact H|].
-  apply IH in H as [H|H]; [|right; right; exact H].
+  apply IH in H as [H|[H|[f H]]]; [|right; left; right; exact H|right; right; exists f; right; exact H].
   destruct o; cbn in H; auto.
-  - destruct (path_eqb p0 p) eqn:E; auto. apply path_eqb_eq in E. subst. right; left; reflexivity.
+  - destruct (path_eqb p0 p) eqn:E; auto. apply path_eqb_eq in E. subst. right; left; left; reflexivity.
+  - destruct (path_eqb from p) eqn:E; [discriminate|].
+    destruct (path_eqb to p) eqn:E2; auto. apply path_eqb_eq in E2. subst. right; right. exists from. left; reflexivity.
   - destruct (path_eqb p0 p) eqn:E; auto. discriminate.
 Qed.
 
@@ -305,10 +572,11 @@ Proof.
   - destruct (path_eqb p0 p) eqn:E; auto. discriminate.
 Qed.
 
-Lemma some_fold_aop_f p : forall l st, some (fold_left (aop_f p) l st) = fold_left (fx_step p) l (some st).
+Lemma some_fold_aop_f p : forall l st, forallb (ren_off p) l = true ->
+  some (fold_left (aop_f p) l st) = fold_left (fx_step p) l (some st).
 Proof.
-  induction l as [|o l IH]; intro st; cbn [fold_left]; [reflexivity|].
-  rewrite IH, some_aop_f. reflexivity.
+  induction l as [|o l IH]; intros st H; cbn [fold_left]; [reflexivity|].
+  cbn in H. apply andb_true_iff in H as [Ho Hl]. rewrite IH by exact Hl. rewrite some_aop_f by exact Ho. reflexivity.
 Qed.
 
 Lemma fold_aop_data p : forall l c, (forall o, In o l -> is_data_op p o = true) ->
@@ -358,11 +626,6 @@ Proof. destruct o; cbn; intros; try reflexivity; discriminate. Qed.
 Lemma dx_step_data p q o : is_data_op p o = true -> forall a, dx_step q a o = a.
 Proof. destruct o; cbn; intros; try reflexivity; discriminate. Qed.
 
-Lemma forallb_filter {A} (f g : A -> bool) l : forallb f l = true -> forallb f (filter g l) = true.
-Proof.
-  rewrite !forallb_forall. intros H x Hx. apply filter_In in Hx as [Hx _]. auto.
-Qed.
-
 Lemma fold_apply_frame : forall l s,
   synced (fold_left apply_op l s) = synced s /\ bsize (fold_left apply_op l s) = bsize s.
 Proof.
@@ -371,10 +634,278 @@ Proof.
   split; congruence.
 Qed.
 
+(* ---- operations on a key ---------------------------------------------------------------------- *)
+Definition on_key (q : path) (o : pop) : bool :=
+  match o with
+  | CreateFile p | CreateDir p | PWrite p _ _ | PSetLen p _ | PRemoveFile p | PRemoveDir p => path_eqb p q
+  | PRename f t => path_eqb f q || path_eqb t q
+  end.
+
+Lemma off_key_fx q o a : on_key q o = false -> fx_step q a o = a.
+Proof.
+  destruct o; cbn; intro H; try reflexivity; try (rewrite H; reflexivity).
+  apply orb_false_iff in H as [-> ->]. reflexivity.
+Qed.
+Lemma off_key_dx q o a : on_key q o = false -> dx_step q a o = a.
+Proof. destruct o; cbn; intro H; try reflexivity; rewrite H; reflexivity. Qed.
+Lemma off_key_cstep q o c : on_key q o = false -> cstep q c o = c.
+Proof. destruct o; cbn; intro H; try reflexivity; rewrite H; reflexivity. Qed.
+Lemma off_key_aop q o st : on_key q o = false -> aop_f q st o = st.
+Proof. destruct o; cbn; intro H; try reflexivity; rewrite H; reflexivity. Qed.
+Lemma off_key_ren_off q o : on_key q o = false -> ren_off q o = true.
+Proof.
+  destruct o; cbn; intro H; try reflexivity. apply orb_false_iff in H as [-> ->]. reflexivity.
+Qed.
+Lemma off_key_data q o : on_key q o = false -> is_data_op q o = false.
+Proof. destruct o; cbn; intro H; try reflexivity; exact H. Qed.
+
+Lemma on_key_cases q o : on_key q o = true ->
+  o = CreateFile q \/ o = CreateDir q \/ o = PRemoveFile q \/ o = PRemoveDir q \/ is_data_op q o = true \/
+  exists f t, o = PRename f t /\ (f = q \/ t = q).
+Proof.
+  destruct o; cbn; intro H; try (apply path_eqb_eq in H; subst; auto 7).
+  - right; right; right; right; left. subst. apply path_eqb_refl.
+  - right; right; right; right; left. subst. apply path_eqb_refl.
+  - right; right; right; right; right. exists from, to. split; [reflexivity|].
+    apply orb_true_iff in H as [H|H]; apply path_eqb_eq in H; auto.
+Qed.
+
+(* ---- the shape of a pending rename ------------------------------------------------------------- *)
+Definition rshape (l : list pop) (f t : path) : Prop :=
+  exists l1 l2, l = l1 ++ PRename f t :: l2 /\
+    (forall o, In o l1 -> on_key f o = true -> o = CreateFile f) /\
+    (forall o, In o l1 -> on_key t o = true -> o = CreateFile t \/ o = CreateDir t \/ o = PRemoveDir t) /\
+    (forall o, In o l2 -> on_key f o = false) /\
+    (forall o, In o l2 -> on_key t o = true -> o = PRemoveFile t).
+
+Record RWf (s : fs) : Prop := {
+  rw_nodup : NoDup (rnames (pending s));
+  rw_shape : forall f t, In (PRename f t) (pending s) -> rshape (pending s) f t;
+  rw_nd : rdirs_off s;
+  rw_src : forall f t, In (PRename f t) (pending s) ->
+             has_file (pfiles s) f = true \/ In (CreateFile f) (pending s)
+}.
+
+Lemma RWf_norename s : norename s -> RWf s.
+Proof.
+  intro H. constructor.
+  - apply norename_nodup. exact H.
+  - intros f t Hin. apply (norename_in s H) in Hin. discriminate.
+  - apply norename_rdirs_off. exact H.
+  - intros f t Hin. apply (norename_in s H) in Hin. discriminate.
+Qed.
+
+Lemma nodup_ren_ne l f t : NoDup (rnames l) -> In (PRename f t) l -> f <> t.
+Proof.
+  induction l as [|o l IH]; intros Hnd Hin; [contradiction|].
+  destruct Hin as [Hin|Hin].
+  - subst o. cbn in Hnd. inversion Hnd as [|? ? H1 _]; subst. intro E. subst. apply H1. left. reflexivity.
+  - apply IH; [|exact Hin]. destruct o; cbn in Hnd; try exact Hnd.
+    inversion Hnd as [|? ? _ H2]; subst. inversion H2; assumption.
+Qed.
+
+(* what the shape says about the whole log *)
+Lemma rshape_in l f t o : rshape l f t -> In o l ->
+  (on_key f o = true -> o = CreateFile f \/ o = PRename f t) /\
+  (on_key t o = true -> o = CreateFile t \/ o = CreateDir t \/ o = PRemoveDir t \/ o = PRename f t \/ o = PRemoveFile t).
+Proof.
+  intros (l1 & l2 & -> & A & B & C & D) Hin. apply in_app_iff in Hin as [Hin|[Hin|Hin]].
+  - split; intro K; [left; apply A; assumption|]. destruct (B o Hin K) as [X|[X|X]]; auto.
+  - subst o. split; intros _; auto.
+  - split; intro K; [rewrite (C o Hin) in K; discriminate|]. right; right; right; right. apply D; assumption.
+Qed.
+
+Lemma rshape_no_data l f t o : rshape l f t -> In o l -> is_data_op f o = false /\ is_data_op t o = false.
+Proof.
+  intros Hs Hin. destruct (rshape_in l f t o Hs Hin) as [A B].
+  split.
+  - destruct (on_key f o) eqn:K; [|apply off_key_data; exact K].
+    destruct (A eq_refl) as [->| ->]; reflexivity.
+  - destruct (on_key t o) eqn:K; [|apply off_key_data; exact K].
+    destruct (B eq_refl) as [->|[->|[->|[->| ->]]]]; reflexivity.
+Qed.
+
+Lemma rshape_fx_src l f t b : rshape l f t -> fold_left (fx_step f) l b = false.
+Proof.
+  intros (l1 & l2 & -> & A & B & C & D). rewrite fold_left_app. cbn [fold_left fx_step].
+  rewrite path_eqb_refl. apply fold_left_id_in. intros a o Ho. apply off_key_fx. apply C. exact Ho.
+Qed.
+
+Lemma pop_dec (a b : pop) : {a = b} + {a <> b}.
+Proof. decide equality; try apply path_dec; try apply Nat.eq_dec; apply (list_eq_dec N.eq_dec). Qed.
+
+(* folds over a list whose operations on the key are removals only *)
+Lemma fx_fold_rm_only q : forall l b, (forall o, In o l -> on_key q o = true -> o = PRemoveFile q) ->
+  (In (PRemoveFile q) l -> fold_left (fx_step q) l b = false) /\
+  (~ In (PRemoveFile q) l -> fold_left (fx_step q) l b = b).
+Proof.
+  induction l as [|o l IH]; intros b H; cbn [fold_left]; [split; [intros []|reflexivity]|].
+  assert (Hl : forall o0, In o0 l -> on_key q o0 = true -> o0 = PRemoveFile q) by (intros; apply H; auto; right; assumption).
+  destruct (on_key q o) eqn:K.
+  - rewrite (H o (or_introl eq_refl) K). cbn [fx_step]. rewrite path_eqb_refl. split.
+    + intros _. destruct (IH false Hl) as [X1 X2].
+      destruct (in_dec pop_dec (PRemoveFile q) l) as [Hi|Hi]; [apply X1; exact Hi|apply X2; exact Hi].
+    + intro Hn. exfalso. apply Hn. left. reflexivity.
+  - rewrite (off_key_fx q o b K). destruct (IH b Hl) as [X Y]. split.
+    + intros [Hi|Hi]; [subst o; cbn in K; rewrite path_eqb_refl in K; discriminate|apply X; exact Hi].
+    + intro Hn. apply Y. intro Hi. apply Hn. right. exact Hi.
+Qed.
+
+Lemma aop_fold_rm_only q : forall l st, (forall o, In o l -> on_key q o = true -> o = PRemoveFile q) ->
+  (In (PRemoveFile q) l -> fold_left (aop_f q) l st = None) /\
+  (~ In (PRemoveFile q) l -> fold_left (aop_f q) l st = st).
+Proof.
+  induction l as [|o l IH]; intros st H; cbn [fold_left]; [split; [intros []|reflexivity]|].
+  assert (Hl : forall o0, In o0 l -> on_key q o0 = true -> o0 = PRemoveFile q) by (intros; apply H; auto; right; assumption).
+  destruct (on_key q o) eqn:K.
+  - rewrite (H o (or_introl eq_refl) K). cbn [aop_f]. rewrite path_eqb_refl. split.
+    + intros _. destruct (IH None Hl) as [X1 X2].
+      destruct (in_dec pop_dec (PRemoveFile q) l) as [Hi|Hi]; [apply X1; exact Hi|apply X2; exact Hi].
+    + intro Hn. exfalso. apply Hn. left. reflexivity.
+  - rewrite (off_key_aop q o st K). destruct (IH st Hl) as [X Y]. split.
+    + intros [Hi|Hi]; [subst o; cbn in K; rewrite path_eqb_refl in K; discriminate|apply X; exact Hi].
+    + intro Hn. apply Y. intro Hi. apply Hn. right. exact Hi.
+Qed.
+
+(* a list whose operations on the key are creations only *)
+Lemma aop_fold_create_only q : forall l st, (forall o, In o l -> on_key q o = true -> o = CreateFile q) ->
+  some st = true \/ In (CreateFile q) l -> fold_left (aop_f q) l st = Some (cont st).
+Proof.
+  induction l as [|o l IH]; intros st H Hs; cbn [fold_left].
+  - destruct Hs as [Hs|[]]. destruct st; [reflexivity|discriminate].
+  - assert (Hl : forall o0, In o0 l -> on_key q o0 = true -> o0 = CreateFile q) by (intros; apply H; auto; right; assumption).
+    destruct (on_key q o) eqn:K.
+    + rewrite (H o (or_introl eq_refl) K). cbn [aop_f]. rewrite path_eqb_refl.
+      rewrite IH; [destruct st; reflexivity|exact Hl|left; destruct st; reflexivity].
+    + rewrite (off_key_aop q o st K). apply IH; [exact Hl|].
+      destruct Hs as [Hs|[Hs|Hs]]; [left; exact Hs| |right; exact Hs].
+      subst o. cbn in K. rewrite path_eqb_refl in K. discriminate.
+Qed.
+
+Lemma rshape_rm_in_l2 l1 l2 f t :
+  (forall o, In o l1 -> on_key t o = true -> o = CreateFile t \/ o = CreateDir t \/ o = PRemoveDir t) ->
+  In (PRemoveFile t) (l1 ++ PRename f t :: l2) <-> In (PRemoveFile t) l2.
+Proof.
+  intro B. split.
+  - intro H. apply in_app_iff in H as [H|[H|H]]; [|discriminate|exact H].
+    assert (K : on_key t (PRemoveFile t) = true) by (cbn; apply path_eqb_refl).
+    destruct (B _ H K) as [X|[X|X]]; discriminate.
+  - intro H. apply in_or_app. right. right. exact H.
+Qed.
+
+Lemma rshape_fx_tgt l f t b : rshape l f t -> f <> t ->
+  (In (PRemoveFile t) l -> fold_left (fx_step t) l b = false) /\
+  (~ In (PRemoveFile t) l -> fold_left (fx_step t) l b = true).
+Proof.
+  intros (l1 & l2 & -> & A & B & C & D) Hne. rewrite fold_left_app. cbn [fold_left fx_step].
+  destruct (path_eqb f t) eqn:E; [apply path_eqb_eq in E; congruence|]. rewrite path_eqb_refl.
+  rewrite (rshape_rm_in_l2 l1 l2 f t B). apply fx_fold_rm_only. exact D.
+Qed.
+
+Lemma rshape_no_createdir_src l f t : rshape l f t -> ~ In (CreateDir f) l.
+Proof.
+  intros Hs Hin. destruct (rshape_in l f t _ Hs Hin) as [A _].
+  destruct A as [X|X]; [cbn; apply path_eqb_refl|discriminate|discriminate].
+Qed.
+
+Lemma rshape_no_remove_src l f t : rshape l f t -> ~ In (PRemoveFile f) l.
+Proof.
+  intros Hs Hin. destruct (rshape_in l f t _ Hs Hin) as [A _].
+  destruct A as [X|X]; [cbn; apply path_eqb_refl|discriminate|discriminate].
+Qed.
+
+(* the shape survives filtering the log *)
+Lemma rshape_filter (h : pop -> bool) l f t : rshape l f t -> h (PRename f t) = true -> rshape (filter h l) f t.
+Proof.
+  intros (l1 & l2 & -> & A & B & C & D) Hh. exists (filter h l1), (filter h l2).
+  split; [rewrite filter_app; cbn [filter]; rewrite Hh; reflexivity|].
+  split; [intros o Ho; apply filter_In in Ho as [Ho _]; auto|].
+  split; [intros o Ho; apply filter_In in Ho as [Ho _]; auto|].
+  split; intros o Ho; apply filter_In in Ho as [Ho _]; auto.
+Qed.
+
+Lemma rshape_snoc l f t o : rshape l f t -> on_key f o = false -> (on_key t o = true -> o = PRemoveFile t) ->
+  rshape (l ++ [o]) f t.
+Proof.
+  intros (l1 & l2 & -> & A & B & C & D) Hf Ht. exists l1, (l2 ++ [o]).
+  split; [rewrite <- app_assoc; reflexivity|]. split; [exact A|]. split; [exact B|].
+  split; intros o' Ho'; apply in_app_iff in Ho' as [Ho'|[Ho'|[]]]; subst; auto.
+Qed.
+
+Lemma rnames_snoc l o : rnames (l ++ [o]) = rnames l ++ match o with PRename f t => [f; t] | _ => [] end.
+Proof. rewrite rnames_app. destruct o; reflexivity. Qed.
+
+(* pushing an operation that is not a rename *)
+Lemma RWf_push s o : RWf s -> not_rename o = true ->
+  (forall f t, In (PRename f t) (pending s) -> on_key f o = false /\ (on_key t o = true -> o = PRemoveFile t)) ->
+  RWf (push s o).
+Proof.
+  intros [A B C D] Hnr Hk. constructor; cbn [pending pfiles pdirs push set_pending].
+  - rewrite rnames_snoc. destruct o; try (rewrite app_nil_r; exact A). discriminate.
+  - intros f t Hin. apply in_app_iff in Hin as [Hin|[Hin|[]]]; [|subst o; discriminate].
+    destruct (Hk f t Hin). apply rshape_snoc; auto.
+  - intros f t Hin. apply in_app_iff in Hin as [Hin|[Hin|[]]]; [|subst o; discriminate]. eapply C; eauto.
+  - intros f t Hin. apply in_app_iff in Hin as [Hin|[Hin|[]]]; [|subst o; discriminate].
+    destruct (D f t Hin) as [X|X]; [left; exact X|right; apply in_or_app; left; exact X].
+Qed.
+
+(* pushing a clean rename *)
+Lemma RWf_push_rename s f t : RWf s -> f <> t ->
+  ~ In f (rnames (pending s)) -> ~ In t (rnames (pending s)) ->
+  (forall o, In o (pending s) -> on_key f o = true -> o = CreateFile f) ->
+  (forall o, In o (pending s) -> on_key t o = true -> o = CreateFile t \/ o = CreateDir t \/ o = PRemoveDir t) ->
+  mem_path f (pdirs s) = false ->
+  has_file (pfiles s) f = true \/ In (CreateFile f) (pending s) ->
+  RWf (push s (PRename f t)).
+Proof.
+  intros [A B C D] Hne Hf Ht Kf Kt Hd Hs. constructor; cbn [pending pfiles pdirs push set_pending].
+  - rewrite rnames_snoc. apply NoDup_app_iff. split; [exact A|]. split.
+    + constructor; [intros [E|[]]; congruence|]. constructor; [intros []|constructor].
+    + intros x Hx [E|[E|[]]]; subst; contradiction.
+  - intros f' t' Hin. apply in_app_iff in Hin as [Hin|[Hin|[]]].
+    + destruct (rnames_in _ _ _ Hin) as [X Y]. apply rshape_snoc; [apply B; exact Hin| |].
+      * cbn. apply orb_false_iff. split; apply path_eqb_neq; intro E; subst; contradiction.
+      * cbn. intro K. apply orb_true_iff in K as [K|K]; apply path_eqb_eq in K; subst; contradiction.
+    + inversion Hin; subst f' t'. exists (pending s), []. split; [reflexivity|]. split; [exact Kf|]. split; [exact Kt|].
+      split; intros o [].
+  - intros f' t' Hin. apply in_app_iff in Hin as [Hin|[Hin|[]]]; [eapply C; eauto|]. inversion Hin; subst. exact Hd.
+  - intros f' t' Hin. apply in_app_iff in Hin as [Hin|[Hin|[]]].
+    + destruct (D f' t' Hin) as [X|X]; [left; exact X|right; apply in_or_app; left; exact X].
+    + inversion Hin; subst f' t'. destruct Hs as [X|X]; [left; exact X|right; apply in_or_app; left; exact X].
+Qed.
+
+(* a sublog (sync_file / sync_dir keep a filtered log) *)
+Lemma RWf_filter (h : pop -> bool) s s' : RWf s -> pending s' = filter h (pending s) ->
+  (forall f t, In (PRename f t) (pending s') -> mem_path f (pdirs s') = false) ->
+  (forall f t, In (PRename f t) (pending s') -> has_file (pfiles s') f = true \/ In (CreateFile f) (pending s')) ->
+  RWf s'.
+Proof.
+  intros [A B C D] Hp Hd Hs. constructor.
+  - rewrite Hp. apply NoDup_rnames_filter. exact A.
+  - intros f t Hin. rewrite Hp in *. apply filter_In in Hin as [Hin Hh]. apply rshape_filter; auto.
+  - exact Hd.
+  - exact Hs.
+Qed.
+
+Lemma norename_filter (h : pop -> bool) s s' : norename s -> pending s' = filter h (pending s) -> norename s'.
+Proof. unfold norename. intros H ->. apply forallb_filter. exact H. Qed.
+
+(* removing operations that are not renames does not change what a name resolves to *)
+Lemma rres_filter (h : pop -> bool) : forall l p,
+  (forall o, In o l -> h o = false -> not_rename o = true) -> rres (filter h l) p = rres l p.
+Proof.
+  induction l as [|o l IH]; intros p H; [reflexivity|]. cbn [filter].
+  assert (Hl : forall o0, In o0 l -> h o0 = false -> not_rename o0 = true) by (intros; apply H; auto; right; assumption).
+  destruct (h o) eqn:E.
+  - cbn [rres fold_right]. fold (rres (filter h l) p). fold (rres l p). rewrite IH by exact Hl. reflexivity.
+  - cbn [rres fold_right]. fold (rres l p). rewrite IH by exact Hl.
+    pose proof (H o (or_introl eq_refl) E) as Hn. destruct o; try reflexivity. discriminate.
+Qed.
+
 (* ---- sync_file preserves every view -------------------------------------------------------- *)
-Lemma sync_file_views s p : norename s -> file_exists s p = true ->
+Lemma sync_file_views s p : RWf s -> file_exists s p = true ->
   let s' := fst (sync_file s p) in
-  snd (sync_file s p) = None /\ norename s' /\
+  snd (sync_file s p) = None /\ RWf s' /\
   (forall q, file_exists s' q = file_exists s q) /\
   (forall q, dir_exists s' q = dir_exists s q) /\
   (forall q, fcontent s' q = fcontent s q) /\
@@ -382,25 +913,27 @@ Lemma sync_file_views s p : norename s -> file_exists s p = true ->
   synced s' = synced s /\ bsize s' = bsize s /\
   fget (pfiles s') p = Some (fcontent s p) /\
   (forall q, q <> p -> fget (pfiles s') q = fget (pfiles s) q) /\
-  (forall q, mem_path q (pdirs s') = mem_path q (pdirs s)).
+  (forall q, mem_path q (pdirs s') = mem_path q (pdirs s)) /\
+  (forall q, resolve s' q = resolve s q).
 Proof.
-  intros Hnr Hex. unfold sync_file. rewrite Hex. cbn [negb fst snd].
+  intros Hw Hex. unfold sync_file. rewrite Hex. cbn [negb fst snd].
   set (flush := filter (is_data_op p) (pending s)).
   set (keep := filter (fun o => negb (is_data_op p o)) (pending s)).
   set (s1 := {| pfiles := if has_file (pfiles s) p then pfiles s else pfiles s ++ [(p, [])];
                 pdirs := pdirs s; synced := synced s; pending := keep; bsize := bsize s |}).
   set (s' := fold_left apply_op flush s1).
-  assert (Hfl : forallb not_rename flush = true) by (apply forallb_filter; exact Hnr).
   assert (Hflush : forall o, In o flush -> is_data_op p o = true)
     by (intros o Ho; apply filter_In in Ho; tauto).
+  assert (Hfl : forallb not_rename flush = true).
+  { apply forallb_forall. intros o Ho. apply Hflush in Ho. destruct o; try reflexivity; discriminate. }
   pose (mark := fun (st : fs) (_ : pop) => st).
   assert (Hs' : s' = fold_left (fun st o => apply_op (mark st o) o) flush s1) by reflexivity.
   assert (Hpend : pending s' = keep).
   { rewrite Hs', fold_apply_pending by reflexivity. reflexivity. }
   assert (Hfiles : forall q, fget (pfiles s') q = fold_left (aop_f q) flush (fget (pfiles s1) q)).
-  { intro q. rewrite Hs'. apply fold_apply_files; auto. }
+  { intro q. rewrite Hs'. apply fold_apply_files; auto; [apply forallb_ren_off_nr; exact Hfl|apply rens_files_only_nr; exact Hfl]. }
   assert (Hdirs : forall q, mem_path q (pdirs s') = mem_path q (pdirs s)).
-  { intro q. rewrite Hs', fold_apply_dirs by auto. cbn [pdirs s1].
+  { intro q. rewrite Hs', fold_apply_dirs by (auto; apply rens_files_only_nr; exact Hfl). cbn [pdirs s1].
     apply fold_left_id_in. intros a o Ho. apply (dx_step_data p). auto. }
   assert (Hs1p : fget (pfiles s1) p = Some (cont (fget (pfiles s) p))).
   { cbn [pfiles s1]. unfold has_file. destruct (fget (pfiles s) p) eqn:E; [exact E|].
@@ -414,20 +947,26 @@ Proof.
     apply fold_filter_skip. intros o _ Ho c. apply (cstep_not_data p); auto. }
   assert (Hq : forall q, q <> p -> fget (pfiles s') q = fget (pfiles s) q).
   { intros q Hq. rewrite Hfiles, (fold_aop_other p q) by auto. apply Hs1q; exact Hq. }
-  assert (Hnr' : norename s').
-  { unfold norename. rewrite Hpend. apply forallb_filter. exact Hnr. }
+  assert (Hkeepren : forall f t, In (PRename f t) (pending s') <-> In (PRename f t) (pending s)).
+  { intros f t. rewrite Hpend. unfold keep. rewrite filter_In. cbn. tauto. }
+  assert (Hw' : RWf s').
+  { apply (RWf_filter (fun o => negb (is_data_op p o)) s s' Hw Hpend).
+    - intros f t Hin. rewrite Hdirs. apply (rw_nd s Hw f t). apply Hkeepren. exact Hin.
+    - intros f t Hin. apply Hkeepren in Hin. destruct (rw_src s Hw f t Hin) as [X|X].
+      + left. unfold has_file in *. destruct (path_dec f p) as [->|Hn]; [rewrite Hp; reflexivity|rewrite Hq by exact Hn; exact X].
+      + right. rewrite Hpend. apply filter_In. split; [exact X|reflexivity]. }
   assert (Hsy : synced s' = synced s /\ bsize s' = bsize s).
   { unfold s'. destruct (fold_apply_frame flush s1) as [A B]. rewrite A, B. split; reflexivity. }
-  split; [reflexivity|]. split; [exact Hnr'|].
-  split; [|split; [|split; [|split; [exact Hpend|split; [|split; [|split; [exact Hp|split; [exact Hq|exact Hdirs]]]]]]]].
-  - intro q. rewrite (file_exists_nr s' q Hnr'), (file_exists_nr s q Hnr), Hpend.
+  split; [reflexivity|]. split; [exact Hw'|].
+  split; [|split; [|split; [|split; [exact Hpend|split; [|split; [|split; [exact Hp|split; [exact Hq|split; [exact Hdirs|]]]]]]]]].
+  - intro q. rewrite !file_exists_fold, Hpend.
     unfold keep. rewrite fold_filter_skip
       by (intros o _ Ho a; apply (fx_step_data p); destruct (is_data_op p o); [reflexivity|discriminate]).
     destruct (path_eqb q p) eqn:E.
     + apply path_eqb_eq in E. subst q. unfold has_file at 1. rewrite Hp.
-      rewrite (file_exists_nr s p Hnr) in Hex. rewrite Hex. eapply fx_fold_true. exact Hex.
+      rewrite file_exists_fold in Hex. rewrite Hex. eapply fx_fold_true. exact Hex.
     + apply path_eqb_neq in E. unfold has_file. rewrite Hq by exact E. reflexivity.
-  - intro q. rewrite (dir_exists_nr s' q Hnr'), (dir_exists_nr s q Hnr), Hpend, Hdirs.
+  - intro q. rewrite (dir_exists_fold s' q (rw_nd s' Hw')), (dir_exists_fold s q (rw_nd s Hw)), Hpend, Hdirs.
     unfold keep. apply fold_filter_skip.
     intros o _ Ho a; apply (dx_step_data p); destruct (is_data_op p o); [reflexivity|discriminate].
   - intro q. unfold fcontent at 1. rewrite Hpend.
@@ -440,16 +979,26 @@ Proof.
       destruct (is_data_op p o); [reflexivity|discriminate].
   - apply Hsy.
   - apply Hsy.
+  - intro q. rewrite !resolve_fold, Hpend. unfold keep. apply rres_filter.
+    intros o _ Ho. destruct o; try reflexivity. discriminate.
 Qed.
 
 (* ---- sync_dir preserves every view ------------------------------------------------------------ *)
 Definition sd_mark (d : path) (st : fs) (o : pop) : fs := set_synced st (mark_synced d (synced st) o).
 
-Lemma fx_step_entry d q o a : (is_entry_op d o = negb (child_of q d)) -> fx_step q a o = a.
+(* both names of the rename are in the directory, or neither *)
+Definition same_side (d : path) (o : pop) : Prop :=
+  match o with PRename f t => child_of f d = child_of t d | _ => True end.
+
+Lemma fx_step_entry d q o a : same_side d o -> (is_entry_op d o = negb (child_of q d)) -> fx_step q a o = a.
 Proof.
-  destruct o; cbn; intros H; try reflexivity;
-    (destruct (path_eqb p q) eqn:E; [|reflexivity]); apply path_eqb_eq in E; subst;
-    destruct (child_of q d); discriminate.
+  destruct o; cbn; intros Hs H; try reflexivity;
+    try ((destruct (path_eqb p q) eqn:E; [|reflexivity]); apply path_eqb_eq in E; subst;
+         destruct (child_of q d); discriminate).
+  destruct (path_eqb from q) eqn:E1.
+  - apply path_eqb_eq in E1. subst from. rewrite <- Hs in H. destruct (child_of q d); discriminate.
+  - destruct (path_eqb to q) eqn:E2; [|reflexivity].
+    apply path_eqb_eq in E2. subst to. rewrite Hs in H. destruct (child_of q d); discriminate.
 Qed.
 
 Lemma dx_step_entry d q o a :
@@ -463,53 +1012,228 @@ Qed.
 Lemma entry_not_data d p o : is_entry_op d o = true -> is_data_op p o = false.
 Proof. destruct o; cbn; intros; try reflexivity; discriminate. Qed.
 
-Lemma sync_dir_views s d : norename s -> dir_exists s d = true ->
+Lemma dx_fold_false q : forall l, ~ In (CreateDir q) l -> fold_left (dx_step q) l false = false.
+Proof.
+  intros l H. destruct (fold_left (dx_step q) l false) eqn:E; [|reflexivity].
+  apply dx_fold_src in E as [E|E]; [discriminate|contradiction].
+Qed.
+
+Lemma sync_dir_views s d : RWf s ->
+  (forall f t, In (PRename f t) (pending s) -> child_of f d = child_of t d) ->
+  dir_exists s d = true ->
   let s' := fst (sync_dir s d) in
   let flush := filter (is_entry_op d) (pending s) in
-  snd (sync_dir s d) = None /\ norename s' /\
+  snd (sync_dir s d) = None /\ RWf s' /\
   (forall q, file_exists s' q = file_exists s q) /\
   (forall q, dir_exists s' q = dir_exists s q) /\
-  (forall q, ~ In (PRemoveFile q) (pending s) -> fcontent s' q = fcontent s q) /\
+  (forall q, ~ In (PRemoveFile q) (pending s) -> (forall t, ~ In (PRename q t) (pending s)) ->
+             fcontent s' (resolve s' q) = fcontent s (resolve s q)) /\
   pending s' = filter (fun o => negb (is_entry_op d o)) (pending s) /\
-  (forall q, fget (pfiles s') q = fold_left (aop_f q) flush (fget (pfiles s) q)) /\
-  (forall q, mem_path q (pdirs s') = fold_left (dx_step q) flush (mem_path q (pdirs s))).
+  (forall q, child_of q d = false -> fget (pfiles s') q = fget (pfiles s) q) /\
+  (forall q, child_of q d = true -> (In (PRemoveFile q) (pending s) -> file_exists s q = false) ->
+             fget (pfiles s') q = if file_exists s q then Some (cont (fget (pfiles s) (resolve s q))) else None) /\
+  (forall q, child_of q d = true -> has_file (pfiles s') q = file_exists s q) /\
+  (forall q, mem_path q (pdirs s') = fold_left (dx_step q) flush (mem_path q (pdirs s))) /\
+  (forall q, child_of q d = true -> resolve s' q = q) /\
+  (forall q, child_of q d = false -> resolve s' q = resolve s q).
 Proof.
-  intros Hnr Hex. unfold sync_dir. rewrite Hex. cbn [negb fst snd].
+  intros Hw Hsd Hex. unfold sync_dir. rewrite Hex. cbn [negb fst snd].
   set (flush := filter (is_entry_op d) (pending s)).
   set (keep := filter (fun o => negb (is_entry_op d o)) (pending s)).
   set (s' := fold_left (fun st o => apply_op (set_synced st (mark_synced d (synced st) o)) o)
                        flush (set_pending s keep)).
-  assert (Hfl : forallb not_rename flush = true) by (apply forallb_filter; exact Hnr).
   assert (Hs' : s' = fold_left (fun st o => apply_op (sd_mark d st o) o) flush (set_pending s keep))
     by reflexivity.
   assert (Hpend : pending s' = keep).
   { rewrite Hs', fold_apply_pending by reflexivity. reflexivity. }
-  assert (Hfiles : forall q, fget (pfiles s') q = fold_left (aop_f q) flush (fget (pfiles s) q)).
-  { intro q. rewrite Hs'. rewrite fold_apply_files by (auto; reflexivity). reflexivity. }
+  assert (Hfl_in : forall o, In o flush -> In o (pending s) /\ is_entry_op d o = true)
+    by (intros o Ho; apply filter_In in Ho; exact Ho).
+  assert (Hkeep_in : forall o, In o keep -> In o (pending s) /\ is_entry_op d o = false).
+  { intros o Ho. apply filter_In in Ho as [X Y]. split; [exact X|]. destruct (is_entry_op d o); [discriminate|reflexivity]. }
+  assert (Hside : forall o, In o (pending s) -> same_side d o).
+  { intros o Ho. destruct o; cbn; auto. }
+  assert (Hrfo : rens_files_only (set_pending s keep) flush).
+  { intros f t Hin. apply Hfl_in in Hin as [Hin _]. split; [apply (rw_nd s Hw f t Hin)|].
+    intro Hc. apply Hfl_in in Hc as [Hc _]. apply (rshape_no_createdir_src _ f t (rw_shape s Hw f t Hin)). exact Hc. }
+  assert (Hfiles_off : forall q, (forall f t, In (PRename f t) flush -> f <> q /\ t <> q) ->
+            fget (pfiles s') q = fold_left (aop_f q) flush (fget (pfiles s) q)).
+  { intros q Hq. rewrite Hs'. rewrite fold_apply_files; try reflexivity; [|exact Hrfo].
+    apply forallb_forall. intros o Ho. destruct o; try reflexivity. destruct (Hq _ _ Ho) as [X Y].
+    cbn. apply path_eqb_neq in X, Y. rewrite X, Y. reflexivity. }
   assert (Hdirs : forall q, mem_path q (pdirs s') = fold_left (dx_step q) flush (mem_path q (pdirs s))).
-  { intro q. rewrite Hs'. rewrite fold_apply_dirs by (auto; reflexivity). reflexivity. }
-  assert (Hnr' : norename s').
-  { unfold norename. rewrite Hpend. apply forallb_filter. exact Hnr. }
-  split; [reflexivity|]. split; [exact Hnr'|].
-  split; [|split; [|split; [|split; [exact Hpend|split; [exact Hfiles|exact Hdirs]]]]].
-  - intro q. rewrite (file_exists_nr s' q Hnr'), (file_exists_nr s q Hnr), Hpend.
-    unfold has_file at 1. fold (some (fget (pfiles s') q)). rewrite Hfiles, some_fold_aop_f.
-    fold (has_file (pfiles s) q). unfold keep, flush.
-    destruct (child_of q d) eqn:Ec.
-    + apply fold_partition_flush. intros o _ Ho a. apply (fx_step_entry d). rewrite Ho, Ec. reflexivity.
-    + apply fold_partition_keep. intros o _ Ho a. apply (fx_step_entry d). rewrite Ho, Ec. reflexivity.
-  - intro q. rewrite (dir_exists_nr s' q Hnr'), (dir_exists_nr s q Hnr), Hpend, Hdirs.
+  { intro q. rewrite Hs'. rewrite fold_apply_dirs by (try reflexivity; exact Hrfo). reflexivity. }
+  (* a rename is flushed or kept with both its names *)
+  assert (Hren_side : forall f t, In (PRename f t) (pending s) ->
+            (child_of f d = true /\ child_of t d = true /\ In (PRename f t) flush) \/
+            (child_of f d = false /\ child_of t d = false /\ In (PRename f t) keep)).
+  { intros f t Hin. pose proof (Hsd f t Hin) as E. destruct (child_of f d) eqn:Ef.
+    - left. split; [reflexivity|]. split; [symmetry; exact E|]. apply filter_In. split; [exact Hin|]. cbn. rewrite Ef. reflexivity.
+    - right. split; [reflexivity|]. split; [symmetry; exact E|]. apply filter_In. split; [exact Hin|]. cbn. rewrite Ef, <- E. reflexivity. }
+  assert (Hnokey : forall q, child_of q d = false -> forall o st, In o flush -> aop_f q st o = st).
+  { intros q Hc o st Ho. apply Hfl_in in Ho as [_ He].
+    destruct o; cbn in He |- *; try reflexivity; try discriminate;
+      (destruct (path_eqb p q) eqn:E; [|reflexivity]); apply path_eqb_eq in E; subst p; congruence. }
+  (* the two names of a flushed rename *)
+  assert (Hinv : forall f t, In (PRename f t) (pending s) -> child_of f d = true ->
+            fget (pfiles s') f = None /\
+            fget (pfiles s') t = (if file_exists s t then Some (cont (fget (pfiles s) f)) else None) /\
+            file_exists s f = false).
+  { intros f t Hin Hcf.
+    assert (Hct : child_of t d = true) by (rewrite <- (Hsd f t Hin); exact Hcf).
+    assert (Hne : f <> t) by (apply (nodup_ren_ne _ f t (rw_nodup s Hw) Hin)).
+    pose proof (rw_shape s Hw f t Hin) as Hsh.
+    pose proof (rshape_fx_tgt _ f t (has_file (pfiles s) t) Hsh Hne) as [Ft1 Ft2].
+    pose proof (rshape_fx_src _ f t (has_file (pfiles s) f) Hsh) as Ff.
+    destruct Hsh as (l1 & l2 & El & A & B & C & D).
+    assert (Efl : flush = filter (is_entry_op d) l1 ++ PRename f t :: filter (is_entry_op d) l2).
+    { unfold flush. rewrite El, filter_app. cbn [filter is_entry_op]. rewrite Hcf. reflexivity. }
+    assert (Hrm : In (PRemoveFile t) (filter (is_entry_op d) l2) <-> In (PRemoveFile t) (pending s)).
+    { rewrite El, (rshape_rm_in_l2 l1 l2 f t B), filter_In. cbn. rewrite Hct. tauto. }
+    assert (Hc : fold_left (aop_f f) (filter (is_entry_op d) l1) (fget (pfiles (set_pending s keep)) f) =
+                 Some (cont (fget (pfiles s) f))).
+    { cbn [pfiles set_pending]. apply aop_fold_create_only.
+      - intros o Ho. apply filter_In in Ho as [Ho _]. apply A. exact Ho.
+      - destruct (rw_src s Hw f t Hin) as [X|X]; [left; exact X|right].
+        apply filter_In. split; [|cbn; exact Hcf].
+        rewrite El in X. apply in_app_iff in X as [X|[X|X]]; [exact X|discriminate|].
+        pose proof (C _ X) as K. cbn in K. rewrite path_eqb_refl in K. discriminate. }
+    rewrite Hs', Efl.
+    destruct (fold_apply_rename (sd_mark d) ltac:(reflexivity) ltac:(reflexivity) f t (cont (fget (pfiles s) f))
+                (filter (is_entry_op d) l1) (filter (is_entry_op d) l2) (set_pending s keep) Hne) as [R1 R2].
+    - apply forallb_forall. intros o Ho. apply filter_In in Ho as [Ho _].
+      destruct (on_key f o) eqn:K; [rewrite (A o Ho K); reflexivity|apply off_key_ren_off; exact K].
+    - apply forallb_forall. intros o Ho. apply filter_In in Ho as [Ho _]. apply off_key_ren_off. apply C. exact Ho.
+    - apply forallb_forall. intros o Ho. apply filter_In in Ho as [Ho _].
+      destruct (on_key t o) eqn:K; [rewrite (D o Ho K); reflexivity|apply off_key_ren_off; exact K].
+    - rewrite <- Efl. exact Hrfo.
+    - exact Hc.
+    - cbv zeta in R1, R2. rewrite R1, R2. split; [|split].
+      + apply fold_left_id_in. intros a o Ho. apply filter_In in Ho as [Ho _]. apply off_key_aop. apply C. exact Ho.
+      + assert (D' : forall o, In o (filter (is_entry_op d) l2) -> on_key t o = true -> o = PRemoveFile t)
+          by (intros o Ho; apply filter_In in Ho as [Ho _]; apply D; exact Ho).
+        destruct (aop_fold_rm_only t _ (Some (cont (fget (pfiles s) f))) D') as [X1 X2].
+        rewrite file_exists_fold.
+        destruct (in_dec pop_dec (PRemoveFile t) (pending s)) as [Hi|Hi].
+        * rewrite (Ft1 Hi). apply X1. apply Hrm. exact Hi.
+        * rewrite (Ft2 Hi). apply X2. intro Hx. apply Hi. apply Hrm. exact Hx.
+      + rewrite file_exists_fold. exact Ff. }
+  (* keys no flushed rename names *)
+  assert (Hunin : forall q, ~ In q (rnames (pending s)) -> forall f t, In (PRename f t) flush -> f <> q /\ t <> q).
+  { intros q Hq f t Hin. apply Hfl_in in Hin as [Hin _]. destruct (rnames_in _ _ _ Hin). split; intro; subst; contradiction. }
+  assert (Hskip_child : forall q b, child_of q d = true ->
+            fold_left (fx_step q) flush b = fold_left (fx_step q) (pending s) b).
+  { intros q b Hc. unfold flush. apply fold_filter_skip. intros o Ho He a.
+    apply (fx_step_entry d); [apply Hside; exact Ho|]. rewrite He, Hc. reflexivity. }
+  assert (Hhas : forall q, child_of q d = true -> has_file (pfiles s') q = file_exists s q).
+  { intros q Hc. destruct (in_dec path_dec q (rnames (pending s))) as [Hi|Hi].
+    - apply in_rnames in Hi as (f & t & Hin & [->| ->]).
+      + destruct (Hinv f t Hin Hc) as (X1 & _ & X3). unfold has_file. rewrite X1, X3. reflexivity.
+      + assert (Hcf : child_of f d = true) by (rewrite (Hsd f t Hin); exact Hc).
+        destruct (Hinv f t Hin Hcf) as (_ & X2 & _). unfold has_file. rewrite X2.
+        destruct (file_exists s t); reflexivity.
+    - unfold has_file. fold (some (fget (pfiles s') q)). rewrite (Hfiles_off q (Hunin q Hi)).
+      rewrite some_fold_aop_f.
+      + change (some (fget (pfiles s) q)) with (has_file (pfiles s) q). rewrite Hskip_child by exact Hc. reflexivity.
+      + apply forallb_forall. intros o Ho. destruct o; try reflexivity. destruct (Hunin q Hi _ _ Ho) as [X Y].
+        cbn. apply path_eqb_neq in X, Y. rewrite X, Y. reflexivity. }
+  assert (Hother : forall q, child_of q d = false -> fget (pfiles s') q = fget (pfiles s) q).
+  { intros q Hc. rewrite Hfiles_off.
+    - apply fold_left_id_in. intros a o Ho. apply Hnokey; assumption.
+    - intros f t Hin. pose proof (Hfl_in _ Hin) as [Hin' He]. cbn in He.
+      destruct (Hren_side f t Hin') as [(X & Y & _)|(X & Y & Z)].
+      + split; intro; subst; congruence.
+      + rewrite X, Y in He. discriminate. }
+  assert (Hchild : forall q, child_of q d = true -> (In (PRemoveFile q) (pending s) -> file_exists s q = false) ->
+            fget (pfiles s') q = if file_exists s q then Some (cont (fget (pfiles s) (resolve s q))) else None).
+  { intros q Hc Hrm. destruct (in_dec path_dec q (rnames (pending s))) as [Hi|Hi].
+    - apply in_rnames in Hi as (f & t & Hin & [->| ->]).
+      + destruct (Hinv f t Hin Hc) as (X1 & _ & X3). rewrite X1, X3. reflexivity.
+      + assert (Hcf : child_of f d = true) by (rewrite (Hsd f t Hin); exact Hc).
+        destruct (Hinv f t Hin Hcf) as (_ & X2 & _). rewrite X2.
+        rewrite (resolve_tgt s f t (rw_nodup s Hw) Hin). reflexivity.
+    - assert (Hres : resolve s q = q).
+      { apply resolve_other. intros f Hf. apply Hi. apply (rnames_in _ _ _ Hf). }
+      rewrite Hres. pose proof (Hhas q Hc) as Hh. unfold has_file in Hh.
+      destruct (file_exists s q) eqn:Ef.
+      + destruct (fget (pfiles s') q) as [c|] eqn:Eg; [|discriminate]. f_equal.
+        change c with (cont (Some c)). rewrite <- Eg, (Hfiles_off q (Hunin q Hi)).
+        apply cont_fold_aop. intros o Ho. apply Hfl_in in Ho as [Ho He]. split; [apply (entry_not_data d); exact He|].
+        intro; subst o. apply Hrm in Ho. congruence.
+      + destruct (fget (pfiles s') q); [discriminate|reflexivity]. }
+  assert (Hnd' : forall f t, In (PRename f t) keep -> mem_path f (pdirs s') = false).
+  { intros f t Hin. apply Hkeep_in in Hin as [Hin _]. rewrite Hdirs, (rw_nd s Hw f t Hin).
+    apply dx_fold_false. intro Hc. apply Hfl_in in Hc as [Hc _].
+    apply (rshape_no_createdir_src _ f t (rw_shape s Hw f t Hin)). exact Hc. }
+  assert (Hw' : RWf s').
+  { apply (RWf_filter (fun o => negb (is_entry_op d o)) s s' Hw Hpend).
+    - rewrite Hpend. exact Hnd'.
+    - rewrite Hpend. intros f t Hin. pose proof (Hkeep_in _ Hin) as [Hin' He]. cbn in He. apply orb_false_iff in He as [Hcf _].
+      destruct (rw_src s Hw f t Hin') as [X|X].
+      + left. unfold has_file. rewrite Hother by exact Hcf. exact X.
+      + right. apply filter_In. split; [exact X|]. cbn. rewrite Hcf. reflexivity. }
+  split; [reflexivity|]. split; [exact Hw'|].
+  assert (Hres_c : forall q, child_of q d = true -> resolve s' q = q).
+  { intros q Hc. apply resolve_other. intros f' Hf'. rewrite Hpend in Hf'. apply Hkeep_in in Hf' as [_ He]. cbn in He.
+    rewrite Hc, orb_true_r in He. discriminate. }
+  assert (Hres_o : forall q, child_of q d = false -> resolve s' q = resolve s q).
+  { intros q Hc. destruct (tgt_dec (pending s) q) as [[f Hf]|Hnt].
+    - rewrite (resolve_tgt s f q (rw_nodup s Hw) Hf).
+      destruct (Hren_side f q Hf) as [(_ & Y & _)|(_ & _ & Z)]; [congruence|].
+      apply resolve_tgt; [apply (rw_nodup s' Hw')|rewrite Hpend; exact Z].
+    - rewrite (resolve_other s q Hnt). apply resolve_other. intros f Hf. rewrite Hpend in Hf.
+      apply Hkeep_in in Hf as [Hf _]. eapply Hnt. exact Hf. }
+  split; [|split; [|split; [|split; [exact Hpend|split; [exact Hother|split; [exact Hchild|split; [exact Hhas|split; [exact Hdirs|split; [exact Hres_c|exact Hres_o]]]]]]]]].
+  - (* file_exists *)
+    intro q. rewrite (file_exists_fold s' q), Hpend. destruct (child_of q d) eqn:Hc.
+    + rewrite (Hhas q Hc). apply fold_left_id_in. intros a o Ho. apply Hkeep_in in Ho as [Ho He].
+      apply (fx_step_entry d); [apply Hside; exact Ho|]. rewrite He, Hc. reflexivity.
+    + unfold has_file. rewrite (Hother q Hc). rewrite file_exists_fold. unfold keep. apply fold_filter_skip.
+      intros o Ho He a. apply (fx_step_entry d); [apply Hside; exact Ho|]. rewrite Hc. cbn.
+      destruct (is_entry_op d o); [reflexivity|discriminate].
+  - (* dir_exists *)
+    intro q. rewrite (dir_exists_fold s' q (rw_nd s' Hw')), (dir_exists_fold s q (rw_nd s Hw)), Hpend, Hdirs.
     unfold keep, flush.
     destruct (path_eqb q d || child_of q d) eqn:Ec.
     + apply fold_partition_flush. intros o _ Ho a. apply (dx_step_entry d). rewrite Ho, Ec. reflexivity.
     + apply fold_partition_keep. intros o _ Ho a. apply (dx_step_entry d). rewrite Ho, Ec. reflexivity.
-  - intros q Hrm. unfold fcontent at 1. rewrite Hpend, Hfiles.
-    rewrite cont_fold_aop.
-    + unfold fcontent, keep. apply fold_filter_skip. intros o _ Ho c.
-      apply (cstep_not_data q); [|reflexivity]. apply (entry_not_data d).
-      destruct (is_entry_op d o); [reflexivity|discriminate].
-    + intros o Ho. apply filter_In in Ho as [Ho He]. split; [apply (entry_not_data d); exact He|].
-      intro Heq. subst o. contradiction.
+  - (* contents *)
+    intros q Hrm Hsrc.
+    assert (Hdata_keep : forall k, child_of k d = false -> fcontent s' k = fcontent s k).
+    { intros k Hc. unfold fcontent. rewrite Hpend, (Hother k Hc). unfold keep. apply fold_filter_skip.
+      intros o _ Ho c. apply (cstep_not_data k); [|reflexivity]. apply (entry_not_data d).
+      destruct (is_entry_op d o); [reflexivity|discriminate]. }
+    destruct (tgt_dec (pending s) q) as [[f Hf]|Hnt].
+    + rewrite (resolve_tgt s f q (rw_nodup s Hw) Hf).
+      destruct (Hren_side f q Hf) as [(X & Y & Z)|(X & Y & Z)].
+      * assert (Hres' : resolve s' q = q).
+        { apply resolve_other. intros f' Hf'. rewrite Hpend in Hf'. apply Hkeep_in in Hf' as [_ He]. cbn in He.
+          rewrite Y, orb_true_r in He. discriminate. }
+        rewrite Hres'. unfold fcontent. rewrite Hpend.
+        assert (Hne : f <> q) by (apply (nodup_ren_ne _ f q (rw_nodup s Hw) Hf)).
+        destruct (Hinv f q Hf X) as (_ & X2 & _). rewrite X2.
+        destruct (rshape_fx_tgt _ f q (has_file (pfiles s) q) (rw_shape s Hw f q Hf) Hne) as [_ Ft2].
+        rewrite file_exists_fold, (Ft2 Hrm). cbn [cont].
+        rewrite fold_left_id_in; [symmetry; apply fold_left_id_in|].
+        -- intros a o Ho. apply (cstep_not_data f); [|reflexivity].
+           apply (rshape_no_data _ f q o (rw_shape s Hw f q Hf) Ho).
+        -- intros a o Ho. apply Hkeep_in in Ho as [Ho _]. apply (cstep_not_data q); [|reflexivity].
+           apply (rshape_no_data _ f q o (rw_shape s Hw f q Hf) Ho).
+      * assert (Hres' : resolve s' q = f).
+        { apply resolve_tgt; [apply (rw_nodup s' Hw')|rewrite Hpend; exact Z]. }
+        rewrite Hres'. apply Hdata_keep. exact X.
+    + assert (Hres : resolve s q = q) by (apply resolve_other; exact Hnt).
+      assert (Hres' : resolve s' q = q).
+      { apply resolve_other. intros f Hf. rewrite Hpend in Hf. apply Hkeep_in in Hf as [Hf _]. eapply Hnt. exact Hf. }
+      rewrite Hres, Hres'. destruct (child_of q d) eqn:Hc; [|apply Hdata_keep; exact Hc].
+      assert (Hi : ~ In q (rnames (pending s))).
+      { intro Hi. apply in_rnames in Hi as (f & t & Hin & [->| ->]); [eapply Hsrc; exact Hin|eapply Hnt; exact Hin]. }
+      unfold fcontent at 1. rewrite Hpend, (Hfiles_off q (Hunin q Hi)).
+      rewrite cont_fold_aop.
+      * unfold fcontent, keep. apply fold_filter_skip. intros o _ Ho c.
+        apply (cstep_not_data q); [|reflexivity]. apply (entry_not_data d).
+        destruct (is_entry_op d o); [reflexivity|discriminate].
+      * intros o Ho. apply Hfl_in in Ho as [Ho He]. split; [apply (entry_not_data d); exact He|].
+        intro Heq. subst o. contradiction.
 Qed.
 
 (* ---- where existence comes from --------------------------------------------------------------- *)
@@ -521,15 +1245,15 @@ Proof.
   - right. apply IH. exact H.
 Qed.
 
-Lemma file_exists_src s q : norename s -> file_exists s q = true ->
-  has_file (pfiles s) q = true \/ In (CreateFile q) (pending s).
-Proof. intros H. rewrite file_exists_nr by exact H. apply fx_fold_src. Qed.
+Lemma file_exists_src s q : file_exists s q = true ->
+  has_file (pfiles s) q = true \/ In (CreateFile q) (pending s) \/ exists f, In (PRename f q) (pending s).
+Proof. rewrite file_exists_fold. apply fx_fold_src. Qed.
 
-Lemma dir_exists_src s q : norename s -> dir_exists s q = true ->
+Lemma dir_exists_src s q : rdirs_off s -> dir_exists s q = true ->
   mem_path q (pdirs s) = true \/ In (CreateDir q) (pending s).
-Proof. intros H. rewrite dir_exists_nr by exact H. apply dx_fold_src. Qed.
+Proof. intros H. rewrite dir_exists_fold by exact H. apply dx_fold_src. Qed.
 
-Lemma dir_entries_iff s d q : norename s ->
+Lemma dir_entries_iff s d q : rdirs_off s ->
   (In q (dir_entries s d) <->
    child_of q d = true /\ (file_exists s q = true \/ dir_exists s q = true)).
 Proof.
@@ -538,18 +1262,22 @@ Proof.
     + apply in_map_iff in H as ([r c] & <- & H). apply filter_In in H as [_ H].
       apply andb_true_iff in H as [A B]. cbn in *. auto.
     + apply filter_In in H as [_ H]. apply andb_true_iff in H as [A B]. auto.
-    + apply in_flat_map in H as (o & Ho & H). pose proof (norename_in s Hnr o Ho) as Hr.
-      destruct o; cbn in H; try contradiction; try discriminate.
+    + apply in_flat_map in H as (o & Ho & H).
+      destruct o; cbn in H; try contradiction.
       * destruct (child_of p d && file_exists s p) eqn:E; [|contradiction].
         destruct H as [<-|[]]. apply andb_true_iff in E as [A B]. auto.
       * destruct (child_of p d && dir_exists s p) eqn:E; [|contradiction].
         destruct H as [<-|[]]. apply andb_true_iff in E as [A B]. auto.
+      * destruct (child_of to d && (file_exists s to || dir_exists s to)) eqn:E; [|contradiction].
+        destruct H as [<-|[]]. apply andb_true_iff in E as [A B]. apply orb_true_iff in B. auto.
   - intros [Hc [Hf|Hd]].
-    + destruct (file_exists_src s q Hnr Hf) as [H|H].
+    + destruct (file_exists_src s q Hf) as [H|[H|[f H]]].
       * left. unfold has_file in H. destruct (fget (pfiles s) q) as [c|] eqn:E; [|discriminate].
         apply fget_In in E. apply in_map_iff. exists (q, c). split; [reflexivity|].
         apply filter_In. split; [exact E|]. cbn. rewrite Hc, Hf. reflexivity.
       * right; right. apply in_flat_map. exists (CreateFile q). split; [exact H|].
+        cbn. rewrite Hc, Hf. left; reflexivity.
+      * right; right. apply in_flat_map. exists (PRename f q). split; [exact H|].
         cbn. rewrite Hc, Hf. left; reflexivity.
     + destruct (dir_exists_src s q Hnr Hd) as [H|H].
       * right; left. apply filter_In. split; [apply mem_path_In; exact H|]. rewrite Hc, Hd. reflexivity.
@@ -557,34 +1285,29 @@ Proof.
         cbn. rewrite Hc, Hd. left; reflexivity.
 Qed.
 
-Lemma has_children_iff s d : norename s ->
+(* the emptiness check does not see a file that a pending rename moved into the directory *)
+Lemma has_children_iff s d : rdirs_off s ->
+  (forall f t, In (PRename f t) (pending s) -> child_of t d = false) ->
   (has_children s d = true <->
    exists q, child_of q d = true /\ (file_exists s q = true \/ dir_exists s q = true)).
 Proof.
-  intro Hnr. unfold has_children. rewrite !orb_true_iff, !existsb_exists. split.
+  intros Hnr Hrt. unfold has_children. rewrite !orb_true_iff, !existsb_exists. split.
   - intros [[([r c] & _ & H)|(r & _ & H)]|(o & Ho & H)].
     + apply andb_true_iff in H as [A B]. exists r. cbn in *. auto.
     + apply andb_true_iff in H as [A B]. exists r. auto.
     + destruct o; try discriminate; apply andb_true_iff in H as [A B]; exists p; auto.
   - intros (q & Hc & [Hf|Hd]).
-    + destruct (file_exists_src s q Hnr Hf) as [H|H].
+    + destruct (file_exists_src s q Hf) as [H|[H|[f H]]].
       * left; left. unfold has_file in H. destruct (fget (pfiles s) q) as [c|] eqn:E; [|discriminate].
         exists (q, c). split; [apply fget_In; exact E|]. cbn. rewrite Hc, Hf. reflexivity.
       * right. exists (CreateFile q). split; [exact H|]. rewrite Hc, Hf. reflexivity.
+      * rewrite (Hrt f q H) in Hc. discriminate.
     + destruct (dir_exists_src s q Hnr Hd) as [H|H].
       * left; right. exists q. split; [apply mem_path_In; exact H|]. rewrite Hc, Hd. reflexivity.
       * right. exists (CreateDir q). split; [exact H|]. rewrite Hc, Hd. reflexivity.
 Qed.
 
 (* ---- the durable-entry set after sync_dir ------------------------------------------------------- *)
-(* any-kind toggle of the entry q *)
-Definition ex_step (q : path) (b : bool) (o : pop) : bool :=
-  match o with
-  | CreateFile p | CreateDir p => if path_eqb p q then true else b
-  | PRemoveFile p | PRemoveDir p => if path_eqb p q then false else b
-  | _ => b
-  end.
-
 Lemma fold_sd_synced d : forall l st,
   synced (fold_left (fun st o => apply_op (set_synced st (mark_synced d (synced st) o)) o) l st) =
   fold_left (mark_synced d) l (synced st).
@@ -594,22 +1317,18 @@ Proof.
   destruct (apply_op_frame (set_synced st (mark_synced d (synced st) o)) o) as (_ & A & _). rewrite A. reflexivity.
 Qed.
 
-Definition not_rmdir (o : pop) : bool := match o with PRemoveDir _ => false | _ => true end.
+(* ---- resolve after a push -------------------------------------------------------------------------- *)
+Lemma rres_snoc l o p : rres (l ++ [o]) p = rres l (rstep p o).
+Proof. unfold rres. rewrite fold_right_app. reflexivity. Qed.
 
-Lemma mem_mark_synced d q l o : not_rename o = true -> not_rmdir o = true -> is_entry_op d o = true ->
-  mem_path q (mark_synced d l o) = ex_step q (mem_path q l) o.
+Lemma resolve_push_nr s o q : not_rename o = true -> resolve (push s o) q = resolve s q.
 Proof.
-  intros Hr Hd He. destruct o; cbn [mark_synced ex_step is_entry_op not_rename not_rmdir] in *; try discriminate.
-  - rewrite He. rewrite mem_padd, (path_eqb_sym q p). destruct (path_eqb p q); [apply orb_true_r|apply orb_false_r].
-  - rewrite He. rewrite mem_padd, (path_eqb_sym q p). destruct (path_eqb p q); [apply orb_true_r|apply orb_false_r].
-  - rewrite He. rewrite mem_pdel, (path_eqb_sym q p). destruct (path_eqb p q); cbn; [apply andb_false_r|apply andb_true_r].
+  intro H. rewrite !resolve_fold, pending_push, rres_snoc. destruct o; try reflexivity. discriminate.
 Qed.
 
-Lemma fold_mark_synced d q : forall l sy,
-  (forall o, In o l -> not_rename o = true /\ not_rmdir o = true /\ is_entry_op d o = true) ->
-  mem_path q (fold_left (mark_synced d) l sy) = fold_left (ex_step q) l (mem_path q sy).
-Proof.
-  induction l as [|o l IH]; intros sy H; cbn [fold_left]; [reflexivity|].
-  rewrite IH by (intros; apply H; right; assumption).
-  destruct (H o (or_introl eq_refl)) as (A & B & C). rewrite mem_mark_synced by assumption. reflexivity.
-Qed.
+Lemma resolve_push_ren s f t q :
+  resolve (push s (PRename f t)) q = resolve s (if path_eqb t q then f else q).
+Proof. rewrite !resolve_fold, pending_push, rres_snoc. reflexivity. Qed.
+
+Lemma not_tgt_of_rnames l p : ~ In p (rnames l) -> forall f, ~ In (PRename f p) l.
+Proof. intros H f Hf. apply H. apply (rnames_in _ _ _ Hf). Qed.
